@@ -43,9 +43,10 @@ def _run(cmd, cwd, timeout):
         return 124, (e.stdout or '') + '\nTIMEOUT'
 
 
-def coq_build(targets=None, timeout=3000):
-    """Full .vo build of the development (no-op when up to date). Serialised with a file lock so that
-    checks running concurrently do not race in make."""
+def coq_build(targets=None, timeout=3000, lock_name='all'):
+    """Full .vo build of the requested targets (no-op when up to date).  The (re)generation of the Makefile is
+    serialised by a global file lock; the build itself by a per-property lock, so that one property's slow proof
+    does not hold up the checks of the others."""
     os.makedirs(WORK, exist_ok=True)
     with open(os.path.join(VERIF, '.build.lock'), 'w') as lk:
         fcntl.flock(lk, fcntl.LOCK_EX)
@@ -55,6 +56,8 @@ def coq_build(targets=None, timeout=3000):
             rc, out = _run(['coq_makefile', '-f', '_CoqProject', '-o', 'Makefile'], COQ, 120)
             if rc:
                 return False, out
+    with open(os.path.join(WORK, f'.build.{lock_name}.lock'), 'w') as lk:
+        fcntl.flock(lk, fcntl.LOCK_EX)
         cmd = ['make', '-j16'] + (targets or [])
         rc, out = _run(cmd, COQ, timeout)
         return rc == 0, out
@@ -92,7 +95,7 @@ def check_props(prop):
     tg = [f'theories/Props/{prop}.vo']
     if os.path.exists(os.path.join(COQ, 'theories', 'Run', f'{prop}.v')):
         tg.append(f'theories/Run/{prop}.vo')
-    ok, out = coq_build(tg)
+    ok, out = coq_build(tg, lock_name=prop)
     if not ok:
         res['log'] = out[-4000:]
         # name the first file that fails
